@@ -42,8 +42,9 @@ def plan(tier, seed):
         cfgs.append(dict(sched="SP", table=tab, rate=8, flows=[0, 1, 2], sizes=[1], N=4 if quick else 5, gaps=["S", 1], order=0, map="mod2"))
     # every configuration once more with long fixed workloads (state that only breaks after hundreds of packets)
     nlong = explore.add_long(cfgs, 300 if quick else 1000)
+    ndebug = explore.add_debug_variants(cfgs)      # the same with every element constructed with debug=True
     return {"cfgs": cfgs, "budget": None,
-            "bound": ("%d long fixed workloads (periodic arrival patterns); " % nlong) + ("2 flows: N<=%d full menu, N<=%d reduced; 3 flows: N<=%d full menu, N<=%d on {same,+1} (deep backlogs)" % (n2 - 1, n2, 3 if quick else 4, 5 if quick else 6))}
+            "bound": ("%d long fixed workloads (periodic arrival patterns); %d configurations repeated with debug=True; " % (nlong, ndebug)) + ("2 flows: N<=%d full menu, N<=%d reduced; 3 flows: N<=%d full menu, N<=%d on {same,+1} (deep backlogs)" % (n2 - 1, n2, 3 if quick else 4, 5 if quick else 6))}
 
 
 def execute(ch, cfg):
